@@ -192,19 +192,47 @@ func (b c02WatchPallet) TrackExtrinsic(h types.Hash, sub *author.ExtrinsicStatus
 // c02ExecChain: "pending" while the delivery is being batched, "executed" for every poll after the first hash;
 // records what was hashed and how often each member was polled afterwards.
 type c02ExecChain struct {
-	mu     sync.Mutex
-	hashed []string
-	polls  map[uint64]int
-	hashOn bool
-	before map[uint64]bool // executed already when the delivery arrives
+	mu        sync.Mutex
+	hashed    []string
+	polls     map[uint64]int
+	hashOn    bool
+	before    map[uint64]bool // executed already when the delivery arrives
+	failHash  map[uint64]bool // ProposalsHash fails for a batch that contains one of these
+	reorder   bool            // the first executed-lookup gives way to any lookup that is in flight at the same time
+	lookups   int
+	completed int
 }
 
 func (c *c02ExecChain) isExecuted(p *transfer.TransferProposal) (bool, error) {
 	c.mu.Lock()
-	defer c.mu.Unlock()
 	if !c.hashOn {
-		return c.before[p.Data.DepositNonce], nil
+		first := c.lookups == 0
+		c.lookups++
+		if c.reorder && first {
+			// A destination whose answers do not come back in request order: if further lookups are issued while this
+			// one is outstanding (they can only be if the caller issues them concurrently), they are answered first.
+			// A caller that looks up one proposal after the other is not affected (nothing else is in flight; it waits
+			// the 30 ms and goes on).
+			c0 := c.completed
+			c.mu.Unlock()
+			for t := 0; t < 30; t++ {
+				time.Sleep(time.Millisecond)
+				c.mu.Lock()
+				moved := c.completed > c0
+				c.mu.Unlock()
+				if moved {
+					time.Sleep(5 * time.Millisecond) // let the others that are in flight complete as well
+					break
+				}
+			}
+			c.mu.Lock()
+		}
+		c.completed++
+		r := c.before[p.Data.DepositNonce]
+		c.mu.Unlock()
+		return r, nil
 	}
+	defer c.mu.Unlock()
 	c.polls[p.Data.DepositNonce]++
 	return true, nil
 }
@@ -212,6 +240,12 @@ func (c *c02ExecChain) hash(ps []*transfer.TransferProposal) ([]byte, error) {
 	c.mu.Lock()
 	defer c.mu.Unlock()
 	c.hashOn = true
+	for _, p := range ps {
+		if c.failHash[p.Data.DepositNonce] {
+			c.hashed = append(c.hashed, "!"+c02Nonces(ps))
+			return []byte{}, errors.New("eth_chainId failed")
+		}
+	}
 	c.hashed = append(c.hashed, c02Nonces(ps))
 	return bytes.Repeat([]byte{0x5a}, 32), nil
 }
@@ -314,7 +348,9 @@ func init() {
 	}
 
 	// execwatch <evm|sub> <cap> <transfer gas> <per-proposal gas metadata g0,g1,… (n = none; suffix e = already executed when
-	//   the delivery arrives, e.g. n,40e,n)>
+	//   the delivery arrives, suffix x = ProposalsHash fails for the batch that contains it, e.g. n,40e,nx; prefix r: = the
+	//   destination answers concurrent executed-lookups out of request order)>
+	//   a batch whose hash failed is listed as !<nonces> in H
 	//   => H=<hashed batches, sorted, ';'>|polls=<nonce:count,…>|ret=<nil|err>
 	ops["C02.execwatch"] = func(a []string) string {
 		store := keyshare.NewECDSAKeyshareStore(repoRoot() + "/tss/test/keyshares/0.keyshare")
@@ -326,8 +362,16 @@ func init() {
 		co := tss.NewCoordinator(h, cm, &elector.CoordinatorElectorFactory{}) // only the static elector is reached
 		co.TssTimeout, co.CoordinatorTimeout, co.InitiatePeriod = time.Hour, time.Hour, time.Hour
 		props := []*proposal.Proposal{}
-		ch := &c02ExecChain{polls: map[uint64]int{}, before: map[uint64]bool{}}
-		for i, gs := range items(a[3], ",") {
+		ch := &c02ExecChain{polls: map[uint64]int{}, before: map[uint64]bool{}, failHash: map[uint64]bool{}}
+		spec := a[3]
+		if strings.HasPrefix(spec, "r:") {
+			spec, ch.reorder = spec[2:], true
+		}
+		for i, gs := range items(spec, ",") {
+			if strings.HasSuffix(gs, "x") {
+				gs = strings.TrimSuffix(gs, "x")
+				ch.failHash[uint64(i)] = true
+			}
 			if strings.HasSuffix(gs, "e") {
 				gs = strings.TrimSuffix(gs, "e")
 				ch.before[uint64(i)] = true
@@ -528,6 +572,14 @@ func genC02Seq(g *G) {
 				g.Emit("execwatch", kind, "100", "60", x+","+y)
 			}
 		}
+		// a failing ProposalsHash (after the executed-lookups succeeded): nothing may be signed or watched for that batch
+		for _, spec := range []string{"nx", "nx,n", "n,nx", "nx,nx", "39,nx,n", "n,41e,nx", "39x,n,n"} {
+			g.Emit("execwatch", kind, "100", "60", spec)
+		}
+		// a destination that answers concurrent lookups out of order: the hashed batch keeps the delivery's order
+		for _, spec := range []string{"r:0,0", "r:0,0,0", "r:n,n", "r:0,39e,0", "r:39,0,0,n"} {
+			g.Emit("execwatch", kind, "1000", "60", spec)
+		}
 		// partially executed deliveries: every executed/pending pattern over 1..3 proposals
 		for n := 1; n <= 3; n++ {
 			for m := 0; m < 1<<uint(n); m++ {
@@ -549,6 +601,9 @@ func genC02Seq(g *G) {
 				x := g.Pick(gasAlpha)
 				if g.Intn(4) == 0 {
 					x += "e"
+				}
+				if g.Intn(12) == 0 {
+					x += "x"
 				}
 				xs = append(xs, x)
 			}
